@@ -71,6 +71,31 @@ def stretched_max_time(M, absence):
         T = M + n
 
 
+def fifo_explains(spec, cfgA, cfgB, L):
+    """Diagnosis: do the twins agree once the FIFO key ignores READY entries logged at absence steps?"""
+    from .. import seams
+
+    try:
+        seams.FIFO_NEUTRAL = set(L)
+        scen.setup_run(spec.get("seed", 0))
+        ta = scen.run_forward(spec["model"], spec.get("ranks"), cfgA, want_snap=False)
+        seams.FIFO_NEUTRAL = set()
+        scen.setup_run(spec.get("seed", 0))
+        tb = scen.run_forward(spec["model"], spec.get("ranks"), cfgB, want_snap=False)
+    finally:
+        seams.FIFO_NEUTRAL = None
+    if not (ta.out.ok and tb.out.ok):
+        return False
+    o = D.call(lambda: ta.project.remove_absence_time_list())
+    if not o.ok:
+        return False
+    da = D.dump(ta.project, live=False)
+    db = D.dump(tb.project, live=False)
+    da.pop("absence_time_list")
+    db.pop("absence_time_list")
+    return D.first_diff(da, db) is None
+
+
 def check_live(res, tr):
     st = Static(tr.model)
     rec = tr.rec
@@ -196,17 +221,10 @@ def run(spec):
                 diff = D.first_diff(da, db)
                 if diff is not None:
                     attrs = D.diff_attrs(da, db)
-                    extra = []
-                    if beyond:
-                        extra.append("beyond_end")
-                    if len(set(L)) != len(L):
-                        extra.append("dup")
-                    if attrs == {"workplaces.placed_component_id_record"}:
-                        cause = "only_placed_component_id_record"
-                    elif extra:
-                        cause = "+".join(extra)
-                    else:
-                        cause = "in_range"
+                    rule = spec["cfg"].get("rule", 0)
+                    cause = "rule_%s" % ["TSLACK", "EST", "SPT", "LPT", "FIFO", "LRPT", "SRPT", "LWRPT", "SWRPT"][rule]
+                    if rule == 4 and fifo_explains(spec, cfgA, cfgB, L):
+                        cause = "FIFO_counts_absence_steps_as_waiting"
                     res.add("twin", "C10.twin_differs." + cause,
                             "simulate(absence=%s)+remove_absence_time_list() differs from simulate() in %s; first at %s: %r vs %r"
                             % (L, sorted(attrs), diff[0], diff[1], diff[2]), None)
